@@ -303,13 +303,25 @@ impl Drop for Cqueue {
         //     return;
         // }
 
-        // run the rest event
+        // run the rest event, the owner must really wait for its select coroutines
+        // even when it is cancelled itself: they may borrow the owner's stack
+        let cancel = if crate::coroutine_impl::is_coroutine() {
+            Some(current_cancel_data())
+        } else {
+            None
+        };
+        if let Some(c) = cancel {
+            c.disable_cancel();
+        }
         loop {
             match self.poll(None) {
                 Ok(_) => {}
                 Err(_e @ PollError::Finished) => break,
                 _ => unreachable!("cqueue drop unreachable"),
             }
+        }
+        if let Some(c) = cancel {
+            c.enable_cancel();
         }
         // we are sure that all the coroutines are finished
     }
